@@ -663,6 +663,148 @@ func parseRendering(str string) (ids []int, leafVals []string, err error) {
 	return ids, leafVals, nil
 }
 
+// renderedNode is one parsed line of String().
+type renderedNode struct {
+	indent int
+	label  string // bits of the incoming label; "" for the empty label or the root
+	isRoot bool
+	id     int
+	step   int
+	fanout int
+	leaf   bool
+	val    string
+	idCol  int // column where the children's indentation starts
+}
+
+func parseRenderedLine(line string) (n renderedNode, err error) {
+	i := 0
+	for i < len(line) && line[i] == ' ' {
+		i++
+	}
+	n.indent = i
+	rest := line[i:]
+	if strings.HasPrefix(rest, "-") {
+		j := strings.Index(rest, "->")
+		if j < 0 {
+			return n, fmt.Errorf("no '->' in %q", line)
+		}
+		n.label = rest[1:j]
+		rest = rest[j+2:]
+		i += j + 2
+	} else {
+		n.isRoot = true
+	}
+	if !strings.HasPrefix(rest, "#") {
+		return n, fmt.Errorf("no node id in %q", line)
+	}
+	j := 1
+	for j < len(rest) && rest[j] >= '0' && rest[j] <= '9' {
+		j++
+	}
+	n.id, _ = strconv.Atoi(rest[1:j])
+	n.idCol = i + j
+	rest = rest[j:]
+	if strings.HasPrefix(rest, "+") {
+		j = 1
+		for j < len(rest) && rest[j] >= '0' && rest[j] <= '9' {
+			j++
+		}
+		n.step, _ = strconv.Atoi(rest[1:j])
+		rest = rest[j:]
+	}
+	if strings.HasPrefix(rest, "*") {
+		j = 1
+		for j < len(rest) && rest[j] >= '0' && rest[j] <= '9' {
+			j++
+		}
+		n.fanout, _ = strconv.Atoi(rest[1:j])
+		rest = rest[j:]
+	}
+	if strings.HasPrefix(rest, "=") {
+		n.leaf = true
+		n.val = rest[1:]
+	} else if rest != "" {
+		return n, fmt.Errorf("trailing %q in %q", rest, line)
+	}
+	return n, nil
+}
+
+func keyBits(k string, from, n int) (string, bool) {
+	if from+n > 8*len(k) {
+		return "", false
+	}
+	var sb strings.Builder
+	for i := from; i < from+n; i++ {
+		if k[i>>3]&(0x80>>uint(i&7)) != 0 {
+			sb.WriteByte('1')
+		} else {
+			sb.WriteByte('0')
+		}
+	}
+	return sb.String(), true
+}
+
+// checkRenderedLabels verifies that the labels and steps on the path to the
+// j-th leaf spell the j-th retained key: the documented line format is
+// <income-label>-><node-id>+<step>*<fanOut-count>=<value>.
+func checkRenderedLabels(str string, m *Model, innerPrefixMode bool) error {
+	if str == "" {
+		return nil
+	}
+	type frame struct {
+		n   renderedNode
+		pos int // bit position in the key after this node's incoming label
+	}
+	var stack []frame
+	leafNo := 0
+	for ln, line := range strings.Split(str, "\n") {
+		n, err := parseRenderedLine(line)
+		if err != nil {
+			return viol("render", "line %d: %v", ln, err)
+		}
+		for len(stack) > 0 && stack[len(stack)-1].n.idCol > n.indent {
+			stack = stack[:len(stack)-1]
+		}
+		if n.isRoot != (len(stack) == 0) {
+			return viol("render", "line %d: indentation does not form a tree: %q", ln, line)
+		}
+		// every leaf below this line shares the path; check the label against the NEXT leaf's key
+		if leafNo >= len(m.Keys) {
+			return viol("render", "line %d: more leaves rendered than retained keys", ln)
+		}
+		pos := 0
+		if len(stack) > 0 {
+			parent := stack[len(stack)-1]
+			pos = parent.pos
+			if innerPrefixMode {
+				if parent.n.step > 0 {
+					pos = pos&^7 + parent.n.step
+				}
+			} else {
+				pos += parent.n.step
+			}
+			// the incoming label of this node
+			k := m.Keys[leafNo]
+			if n.label == "" {
+				if pos != 8*len(k) {
+					return viol("render", "line %d: empty label at bit %d but the next key %s has %d bits", ln, pos, q(k), 8*len(k))
+				}
+			} else {
+				bits, ok := keyBits(k, pos, len(n.label))
+				if !ok || bits != n.label {
+					return viol("render", "line %d: label %q at bit %d does not match key %s (bits %q)", ln, n.label, pos, q(k), bits)
+				}
+				pos += len(n.label)
+			}
+		}
+		stack = append(stack, frame{n, pos})
+		if n.leaf {
+			leafNo++
+		}
+	}
+	return nil
+}
+
 func checkC19(c *Case, s *Stats) error {
 	m := newModel(c)
 	fresh, st, err := c.load()
@@ -699,6 +841,9 @@ func checkC19(c *Case, s *Stats) error {
 			if lv != want {
 				return viol("render", "leaf line %d shows %q, want %q (retained key %s)", i, lv, want, q(m.Keys[i]))
 			}
+		}
+		if e := checkRenderedLabels(str, m, c.Opt.inner()); e != nil {
+			return e
 		}
 		if st != fresh {
 			if fs := fresh.String(); fs != str {
